@@ -261,7 +261,7 @@ fn parent(args: &Args) {
     }
     let mut miri: Option<Value> = None;
     let mut miri_lines: Vec<String> = Vec::new();
-    if what == "c13" && runs.iter().all(|r| r.lines.is_empty()) && (tier == "thorough" || std::env::var("VERIF_MIRI").map(|v| v == "1").unwrap_or(false)) {
+    if what == "c13" && runs.iter().all(|r| r.lines.is_empty()) && std::env::var("VERIF_MIRI").map(|v| v != "0").unwrap_or(true) {
         let (j, lines) = miri_layer(seed, &tier);
         miri = Some(j);
         miri_lines = lines;
@@ -300,19 +300,27 @@ fn parent(args: &Args) {
     }
 }
 
-/// Miri layer of C13 (thorough tier): real std threads under Miri's seeded pre-emptive scheduler
-/// with the data-race and aliasing detectors on. Returns (evidence object, VIOLATION lines).
+/// Miri layer of C13: real std threads under Miri's seeded pre-emptive scheduler with the data-race
+/// and aliasing detectors on (64 seeds in the thorough tier, 3 in the quick tier; VERIF_MIRI=0
+/// switches it off, VERIF_MIRI_SEEDS overrides the count). Returns (evidence object, VIOLATION lines).
 fn miri_layer(seed: u64, tier: &str) -> (Value, Vec<String>) {
     let t0 = Instant::now();
-    let nseeds: u64 = std::env::var("VERIF_MIRI_SEEDS").ok().and_then(|s| s.parse().ok()).unwrap_or(if tier == "thorough" { 64 } else { 8 });
+    let nseeds: u64 = std::env::var("VERIF_MIRI_SEEDS").ok().and_then(|s| s.parse().ok()).unwrap_or(if tier == "thorough" { 64 } else { 3 });
     let base = seed.wrapping_mul(1000) % 1_000_000;
     let dir = std::env::var("VERIF_MIRI_DIR").unwrap_or_else(|_| "/verif/miri".into());
-    // split the seed range over a few processes (each compiles nothing new after the first)
-    let build = Command::new("cargo").args(["+nightly", "miri", "run", "--offline", "-q", "--", "selfcheck"]).current_dir(&dir).env("MIRIFLAGS", "-Zmiri-disable-isolation").stdin(Stdio::null()).output();
-    let ok_build = build.as_ref().map(|o| o.status.success()).unwrap_or(false);
-    if !ok_build {
-        let msg = build.map(|o| String::from_utf8_lossy(&o.stderr).chars().rev().take(1500).collect::<String>().chars().rev().collect::<String>()).unwrap_or_else(|e| e.to_string());
-        harness_error(&format!("miri layer does not build/run: {}", msg));
+    // single-threaded self-check: the program must build and pass with one client thread, otherwise a
+    // failing seed says nothing about sharing between threads (harness error, exit 2). Up front in the
+    // thorough tier; in the quick tier only when a seed has failed.
+    let selfcheck = |dir: &str| {
+        let build = Command::new("cargo").args(["+nightly", "miri", "run", "--offline", "-q", "--", "selfcheck"]).current_dir(dir).env("MIRIFLAGS", "-Zmiri-disable-isolation").stdin(Stdio::null()).output();
+        let ok_build = build.as_ref().map(|o| o.status.success()).unwrap_or(false);
+        if !ok_build {
+            let msg = build.map(|o| String::from_utf8_lossy(&o.stderr).chars().rev().take(1500).collect::<String>().chars().rev().collect::<String>()).unwrap_or_else(|e| e.to_string());
+            harness_error(&format!("miri layer does not build/run: {}", msg));
+        }
+    };
+    if tier == "thorough" {
+        selfcheck(&dir);
     }
     // one process: -Zmiri-many-seeds already spreads the seeds over all cores
     let mut children = Vec::new();
@@ -345,11 +353,14 @@ fn miri_layer(seed: u64, tier: &str) -> (Value, Vec<String>) {
         }
         if !out.status.success() {
             // find which seeds failed: "Trying seed: N" / "FAILING SEED: N" lines in stderr
-            let failing: Vec<String> = se.lines().filter(|l| l.contains("FAILING SEED") || l.contains("failing seed")).map(|s| s.to_string()).collect();
+            let failing: Vec<String> = se.lines().map(|l| l.trim()).filter(|l| l.starts_with("FAILING SEED")).map(|s| s.to_string()).collect();
             failures.push(json!({"seed_range": [lo, hi], "failing": failing, "stderr_tail": se.chars().rev().take(3000).collect::<String>().chars().rev().collect::<String>(), "stdout_tail": so.chars().rev().take(1000).collect::<String>().chars().rev().collect::<String>()}));
         }
     }
     if !failures.is_empty() {
+        if tier != "thorough" {
+            selfcheck(&dir);
+        }
         let replays = PathBuf::from(std::env::var("VERIF_REPLAYS").unwrap_or_else(|_| "/verif/replays".into()));
         std::fs::create_dir_all(&replays).ok();
         let p = replays.join(format!("C13-miri-{}.json", seed));
